@@ -35,3 +35,18 @@ pub trait AsyncNoSend {
 pub trait Scoped<'short, 'long: 'short, T: 'long + Clone> {
     fn pick(&self, a: &'short T, b: &'long T) -> &'short T;
 }
+
+pub trait Encode {}
+/// async methods with their own generics and where clauses
+#[entrait(unimock = false)]
+pub trait AsyncWhere {
+    async fn store<T>(&self, value: T) -> usize
+    where
+        T: Encode + Send;
+    async fn pick<'a, T: Sync>(&'a self, a: &'a T) -> &'a T
+    where
+        T: Encode;
+    fn sync_where<T>(&self, value: T) -> usize
+    where
+        T: Encode;
+}
